@@ -11,7 +11,8 @@ META = {
             'C41_lock_mutual_exclusion: for ALL programs (bytesAllocated included) at most one thread is ever between a successful acquisition of backingStoreLock and its store(0) '
             '(this was false before the /repo commit "fix: SmallBufferAllocator::bytesAllocated retried its lock CAS with a stale expected value ..."; the model describes the repaired loop). '
             'The schedule that used to break it is replayed first on every run as a regression case; generated programs x schedules are replayed on the real allocator and trace, results, lock word, '
-            'slab count and critical-section occupancy are compared with the model evaluated in Coq; ownership map / alignment / occupancy are evaluated on the implementation output.',
+            'slab count, class constants and critical-section occupancy are compared with the model evaluated in Coq; ownership map / non-null / alignment / in-slab / occupancy are evaluated on the implementation output, '
+            'including short (partial) refills after a thread exited with a partially filled cache, for every size class.',
     'note': 'Trusted: Coq kernel; harness/vsched.h; SC interleaving; moodycamel::ConcurrentQueue as a linearizable multiset container; alignedMalloc contract (aligned, disjoint live blocks); '
             'std::vector and queue operations are atomic steps in the model; the data-race freedom of the vector that this presupposes is what C41_lock_mutual_exclusion provides. No axioms.',
 }
@@ -53,8 +54,59 @@ def gen_sched(r, nthr, n):
     return out[:n]
 
 
+CLASSES = [4, 8, 16, 32, 64, 128, 256, 2048, 4096, 8192]   # library classes + the three extra classes of the harness
+
+
+def gen_drain(r, consts):
+    """a thread exits with a PARTIALLY filled cache (its flush leaves the central store with a count that is no multiple of the batch), then
+    another thread allocates through several refills while HOLDING every block, so that its last refill is short"""
+    chunk = r.choice([4096, 4096, 2048])
+    ideal, pm, _ = consts[chunk]
+    j = r.randint(1, ideal - 1) if ideal > 1 else 1
+    helper = [('A',)] * j + [('X',)]
+    m = (pm - j) + r.choice([1, 1, 2, ideal + 1])          # drains the first slab past the short refill
+    m = min(m, 26)
+    main = [('A',)] * m + [('X',)]
+    progs = [helper, main]
+    if r.random() < 0.4:
+        progs.append([('A',)] * r.randint(1, 3) + [('X',)])
+    if r.random() < 0.3:
+        progs[1].insert(r.randrange(len(progs[1])), ('B',))
+    budget = min(16 + sum(3 * len(p) for p in progs) + 12 * len(progs), 170)
+    if r.random() < 0.6:
+        sched = [0] * (len(helper) + 8) + gen_sched(r, len(progs), budget)     # the helper first, then interleaved
+    else:
+        sched = gen_sched(r, len(progs), budget + 4)
+    return {'chunk': chunk, 'budget': budget, 'progs': progs, 'sched': sched[:budget + 4]}
+
+
+def probe_lockstep(consts):
+    """deterministic probes (model-tied): helper allocates j blocks and exits, main allocates until one past the short refill, holding all"""
+    out = []
+    for chunk in (2048, 4096, 256):
+        ideal, pm, _ = consts[chunk]
+        for j in sorted(set([1, max(1, ideal // 2), ideal - 1])):
+            full = (pm - j) // ideal                  # full refills the central store can serve after the helper's flush
+            n = full * ideal + 1                      # the next allocation needs the short refill
+            progs = [[('A',)] * j + [('X',)], [('A',)] * n + [('X',)]]
+            budget = 30 + j + n + 3 * (full + 3)
+            out.append({'chunk': chunk, 'budget': budget, 'progs': progs, 'sched': [0] * (budget + 4)})
+    return out
+
+
+def probe_native(consts):
+    """the same sequence on the implementation alone, for EVERY size class (batch sizes taken from the real constants)"""
+    out = []
+    for chunk in CLASSES:
+        ideal, pm, _ = consts[chunk]
+        for j in sorted(set([1, max(1, ideal // 2), max(1, ideal - 1)])):
+            full = (pm - j) // ideal
+            out.append('probe %d %d %d' % (chunk, j, full * ideal + ideal + 2))
+    return out
+
+
 def gen_case(r, with_bytes=None):
-    chunk = r.choice([8192, 8192, 8192, 4096, 4096, 256])
+    chunk = r.choice([8192, 8192, 4096, 4096, 2048, 256])
     nth = r.choice([2, 2, 3, 3])
     if with_bytes is None:
         with_bytes = r.random() < 0.45
@@ -85,19 +137,20 @@ def line_of(c):
 
 
 def parse_extra(extra):
-    m = re.match(r'lock (-?\d+) slabs (\d+) maxocc (\d+) bad (\d+) hints (\S*) ev(.*)', extra)
+    m = re.match(r'lock (-?\d+) slabs (\d+) maxocc (\d+) bad (\d+) consts (\d+),(\d+),(\d+) hints (\S*) ev(.*)', extra)
     if not m:
         return None
     hints = []
-    for h in m.group(5).split(';'):
+    for h in m.group(8).split(';'):
         if not h:
             continue
         xs = [int(x) for x in h.split(',')]
         hints.append(xs[1:1 + xs[0]])
     ev = []
-    for tok in m.group(6).split():
+    for tok in m.group(9).split():
         ev.append((1 if tok[0] == 'a' else 2, int(tok[1:])))
-    return {'lock': int(m.group(1)), 'slabs': int(m.group(2)), 'maxocc': int(m.group(3)), 'bad': int(m.group(4)), 'hints': hints, 'ev': ev}
+    return {'lock': int(m.group(1)), 'slabs': int(m.group(2)), 'maxocc': int(m.group(3)), 'bad': int(m.group(4)),
+            'consts': (int(m.group(5)), int(m.group(6)), int(m.group(7))), 'hints': hints, 'ev': ev}
 
 
 def merged_sched(c, p, x):
@@ -117,11 +170,11 @@ def merged_sched(c, p, x):
 def term_of(c, p, x):
     nthr = len(c['progs'])
     res = dv.coq_list([ls_common.zpairs(p['results'].get(t, [])) for t in range(nthr)])
-    return '(SC %s %d%%nat %s %s %s %s %s %s %s %s %s %d)' % (
+    return '(SC %s %d%%nat %s %s %s %s %s %s (%d, %d, %d) %s %s %s %d)' % (
         dv.zlit(c['chunk']), c['budget'],
         dv.coq_list([dv.coq_list([op_coq(o) for o in pr]) for pr in c['progs']]),
         dv.coq_list([dv.zlit(v) for v in merged_sched(c, p, x)]),
-        ls_common.zpairs(p['steps']), res, dv.zlit(x['lock']), dv.zlit(x['slabs']), dv.zlit(x['maxocc']), dv.zlit(x['bad']),
+        ls_common.zpairs(p['steps']), res, dv.zlit(x['lock']), dv.zlit(x['slabs']), x['consts'][0], x['consts'][1], x['consts'][2], dv.zlit(x['maxocc']), dv.zlit(x['bad']),
         ls_common.zpairs(x['ev']), p['status'])
 
 
@@ -137,12 +190,42 @@ def run(ctx):
     exe = dv.build_harness('h_smallbuf', ['h_smallbuf.cpp'], need_lib=False, extra_flags=('-DDISPENSO_VERIF_SBA',))
     ctx.phase('build')
     r = ctx.rng
-    n = 240 if ctx.quick else 9000
-    cases = [WITNESS] + [gen_case(r) for _ in range(n)]
+    # the class constants of the real code (batch sizes differ per class); the judge compares them with cfg_of_chunk
+    couts = ls_common.run_cases(exe, ['consts %d' % ch for ch in CLASSES], jobs=2)
+    consts = {}
+    for ch, o in zip(CLASSES, couts):
+        m = re.match(r'consts chunk (\d+) (\d+),(\d+),(\d+)', o or '')
+        if m and int(m.group(1)) == ch:
+            consts[ch] = (int(m.group(2)), int(m.group(3)), int(m.group(4)))
+    if len(consts) != len(CLASSES):
+        ctx.broken.append('harness did not report the class constants: ' + ' / '.join((o or '')[:60] for o in couts))
+        return
+    # implementation-only probes, every size class: helper thread allocates j and exits (partial cache flushed), a second thread allocates and
+    # holds through the short refill; every block must be non-null, aligned, inside a slab and not live
+    nat = probe_native(consts)
+    nouts = ls_common.run_cases(exe, nat, jobs=4)
+    nbad = 0
+    for l, o in zip(nat, nouts):
+        m = re.match(r'probe chunk (\d+) consts (\d+),(\d+),(\d+) helper (\d+) allocs (\d+) bad (\d+) firstbad (-?\d+) reason (\S+) slabs (\d+)', o or '')
+        if not m:
+            ctx.broken.append('probe output unreadable for %s: %s' % (l, (o or '')[:200]))
+            continue
+        if int(m.group(7)) > 0:
+            nbad += 1
+            ctx.violation('SmallBufferAllocator<%s> (batch %s, %s per slab): a helper thread allocated %s block(s) and exited, then one thread allocated %s blocks holding all of them: '
+                          'allocation #%s returned a block that is %s (%s bad allocations)' % (m.group(1), m.group(2), m.group(3), m.group(5), m.group(6), m.group(8), m.group(9), m.group(7)),
+                          {'case': l, 'output': o, 'cmd': 'echo "%s" | build/harness/h_smallbuf-*' % l})
+    ctx.cov['native_probes'] = {'cases': len(nat), 'classes': len(CLASSES), 'failed': nbad}
+    ctx.cov['evaluations'] += len(nat)
+    ctx.phase('probes')
+    n = 110 if ctx.quick else 7000
+    nd = 45 if ctx.quick else 2000
+    probes = probe_lockstep(consts)
+    cases = [WITNESS] + probes + [gen_drain(r, consts) for _ in range(nd)] + [gen_case(r) for _ in range(n)]
     outs = ls_common.run_cases(exe, [line_of(c) for c in cases])
     terms, kept = [], []
     distinct = set()
-    feat = {'carve': 0, 'dequeue_hit': 0, 'recycle': 0, 'exit_flush': 0, 'spin': 0, 'bytes_cas_retry': 0, 'cross_thread_dealloc': 0}
+    feat = {'short_refill': 0, 'carve': 0, 'dequeue_hit': 0, 'recycle': 0, 'exit_flush': 0, 'spin': 0, 'bytes_cas_retry': 0, 'cross_thread_dealloc': 0}
     for c, o in zip(cases, outs):
         p = ls_common.parse_vsched(o, SITES, TAGS)
         x = parse_extra(p['extra']) if p and 'error' not in p else None
@@ -157,6 +240,7 @@ def run(ctx):
             distinct.add(o.split('| status')[0])
         feat['carve'] += sites.count(SITES.index('sba.grab.push_back'))
         feat['dequeue_hit'] += sum(1 for h in x['hints'] if h)
+        feat['short_refill'] += sum(1 for h in x['hints'] if 0 < len(h) < x['consts'][0])
         feat['recycle'] += sites.count(SITES.index('sba.recycle.enqueue'))
         feat['exit_flush'] += sites.count(SITES.index('sba.exit.enqueue'))
         feat['spin'] += sites.count(SITES.index('sba.grab.spin'))
@@ -175,9 +259,11 @@ def run(ctx):
     ctx.cov['evaluations'] += len(cases)
     ctx.cov['distinct_nontrivial'] += len(distinct)
     ctx.cov['rule'] = ('generated programs over alloc / dealloc(k-th live block, any thread\'s) / bytesAllocated / thread-exit for 2-3 threads, classes 8192 (1 ideal, 6 per slab), '
-                       '4096 (3, 12) and the library class 256 (32, 128) through the public API, x bursty/uniform schedules, one fork per case under vsched; '
+                       '4096 (3, 12), 2048 (5, 22) and the library class 256 (32, 128) through the public API, x bursty/uniform schedules; a "drain" family (a thread exits with a partially filled '
+                       'cache, another allocates through several refills holding every block, last refill short); deterministic lockstep probes of that sequence for 2048/4096/256; '
+                       'plus implementation-only probes of it for every size class 4..256, 2048, 4096, 8192; one fork per case under vsched; '
                        'non-trivial = at least 2 allocations and at least 2 threads took steps; distinct = distinct (trace, results, final state) strings')
-    verdicts = ls_common.judge_parallel(ctx, 'From DV Require Import Base.Sched Model.SmallBufModel Model.C41Check.', 'judge_sb', terms, shard_size=60)
+    verdicts = ls_common.judge_parallel(ctx, 'From DV Require Import Base.Sched Model.SmallBufModel Model.C41Check.', 'judge_sb', terms, shard_size=28)
     if verdicts is None:
         ctx.broken.append('correspondence L(C41): the model no longer evaluates')
         return
@@ -201,6 +287,7 @@ def run(ctx):
     ctx.cov['max_occupancy_seen'] = max([x['maxocc'] for _, _, x, _ in kept] or [0])
     ctx.cov['traces_validated_against_impl'] += hist.get(0, 0)
     ctx.cov['feature_histogram'] = feat
+    ctx.cov['lockstep_probe_cases'] = len(probes)
     ctx.cov['with_bytes_cases'] = sum(1 for c, _, _, _ in kept if any(o[0] == 'B' for p in c['progs'] for o in p))
     ctx.cov['status_histogram'] = {k: sum(1 for _, p, _, _ in kept if p['status'] == v) for k, v in (('done', 0), ('deadlock', 1), ('budget', 2))}
     ctx.sample({'case': line_of(cases[0])[:120], 'impl': outs[0][:500]})
